@@ -74,8 +74,8 @@ def gen_cfg(rng):
             a.deprecated = True
         elif r < 0.7:
             a.replaced = "--new-" + (l or s)
-        if rng.random() < 0.15 and not (a.deprecated or a.replaced):
-            a.hidden = True
+        if rng.random() < 0.3 and not a.mandatory:
+            a.hidden = True          # also together with deprecated / replaced: both display settings must be on
         if cat_of(a.slot) == "scalar" and kind_of(a.slot) in ("i", "s", "d", "l") and rng.random() < 0.5:
             a.printdef = rng.choice([0, 1])
             a.init = gen.gen_text(rng, argh.elem_of(a.slot), small=True)
